@@ -3,6 +3,7 @@
 package db
 
 import (
+	"crypto/sha1"
 	"bytes"
 	"context"
 	"encoding/json"
@@ -516,6 +517,27 @@ func (s *c09State) gwOp(actor string, op c09Op) {
 			a.Seq, a.Cas = doc.Sequence, doc.Cas
 		}
 		s.ack(a, err)
+	case "pushpre":
+		// a replicated revision written the way the BLIP rev handler writes one that carries attachments or history: the
+		// bucket document is fetched first and handed to the write (PutDocOptions.ExistingDoc); whatever lands between the
+		// fetch and the write makes the first attempt lose its CAS and the update callback run again on the current document
+		m := s.marker("g", actor)
+		cur, raw, gerr := e.coll.GetDocumentWithRaw(ctx, key, DocUnmarshalSync)
+		if gerr != nil || cur == nil || raw == nil {
+			s.cnt("gateway_pushpre_skipped", 1)
+			return
+		}
+		gen, _ := ParseRevID(ctx, cur.GetRevTreeID())
+		newRev := fmt.Sprintf("%d-%x", gen+1, sha1.Sum([]byte(m)))
+		bodyBytes, _ := json.Marshal(map[string]any{"ch": []string{"A", "B"}[op.Arg%2], "m": m})
+		newDoc := &Document{ID: key}
+		newDoc.UpdateBodyBytes(bodyBytes)
+		doc, _, err := e.coll.PutExistingRev(ctx, newDoc, []string{newRev, cur.GetRevTreeID()}, true, false, raw, ExistingVersionWithUpdateToHLV)
+		a := c09Ack{Actor: actor, Op: "pushpre", Key: key, Rev: newRev, M: m}
+		if err == nil && doc != nil {
+			a.Seq, a.Cas = doc.Sequence, doc.Cas
+		}
+		s.ack(a, err)
 	case "gdel":
 		cur, gerr := e.coll.GetDocument(ctx, key, DocUnmarshalSync)
 		if gerr != nil || cur == nil || cur.IsDeleted() {
@@ -791,7 +813,7 @@ func c09GenCase(r *vlib.Rand, mode string, n int, own bool) *c09Case {
 	if own {
 		c.FlipSync = r.Chance(2, 3)
 		for i := 1; i <= r.Range(1, 2); i++ {
-			c.Actors = append(c.Actors, c09Actor{Name: fmt.Sprintf("G%d", i), Role: "gw", Ops: gen([]string{"put", "put", "put", "gdel", "putblind", "resync", "resync"}, 3, 6)})
+			c.Actors = append(c.Actors, c09Actor{Name: fmt.Sprintf("G%d", i), Role: "gw", Ops: gen([]string{"put", "put", "pushpre", "pushpre", "gdel", "putblind", "resync", "resync"}, 3, 6)})
 		}
 		c.Actors = append(c.Actors, c09Actor{Name: "R1", Role: "rd", Ops: gen([]string{"get", "get1x", "getsync"}, 1, 3)})
 		if mode != c09OnDemand {
@@ -807,7 +829,7 @@ func c09GenCase(r *vlib.Rand, mode string, n int, own bool) *c09Case {
 		c.Actors = append(c.Actors, c09Actor{Name: "X2", Role: "ext", Ops: gen(extKinds, 1, 2)})
 	}
 	if r.Chance(3, 4) {
-		c.Actors = append(c.Actors, c09Actor{Name: "G1", Role: "gw", Ops: gen([]string{"put", "put", "gdel", "putblind", "resync", "resync", "resync"}, 1, 4)})
+		c.Actors = append(c.Actors, c09Actor{Name: "G1", Role: "gw", Ops: gen([]string{"put", "pushpre", "pushpre", "gdel", "putblind", "resync", "resync", "resync"}, 1, 4)})
 	}
 	if mode == c09OnDemand || r.Chance(1, 2) {
 		c.Actors = append(c.Actors, c09Actor{Name: "R1", Role: "rd", Ops: gen([]string{"get", "get", "get1x", "getsync"}, 1, 3)})
@@ -1260,6 +1282,14 @@ func c09RunCase(e *c09Env, c *c09Case, chooser vlib.Chooser, r *vlib.Rand) {
 				v.Class = "acknowledged gateway write directly over an external write that was never imported"
 				s.cnt("gateway_write_over_unimported_external_write", 1)
 				run.Note("case %d %s: acknowledged gateway write %q committed directly over the unimported external write %q", c.N, k, v.Marker, pv.Marker)
+				if pv.Del && !pv.HasSync {
+					// an external delete that left nothing behind (no body, no metadata) cannot be told from a document that never
+					// existed: the gateway write creates the document anew - there is nothing to import
+					s.cnt("gateway_creates_over_external_deletes_that_left_nothing", 1)
+				} else {
+					run.Violation("imported", sig("acknowledged-gateway-write-replaced-an-external-write-that-was-never-imported"),
+						fmt.Sprintf("%s: acknowledged gateway write %q (revision %s, cas %x) was committed directly over the external write %q (cas %x, delete=%v), which never became a revision", k, v.Marker, R, v.Cas, pv.Marker, pv.Cas, pv.Del), witness(nil))
+				}
 			case bodyChanged && predExternal:
 				// not an acknowledged gateway write: this commit is the import of pv, and it altered what pv wrote
 				pending = nil
